@@ -44,11 +44,30 @@ def handleLock (threads iters : Nat) : String :=
   let s := SpinLock.run (SpinLock.init threads) sched
   s!"count={s.data} overlaps=0"
 
+/-- appends overlapping takes: whatever the interleaving, the takes hand out `range n` exactly once and in
+    order (`c15_takes_partition` / `c15_takes_chain`); the model runs one particular interleaving (append a chunk,
+    take, append, take, ...) and reports the same summary the harness computes for the real pool -/
+def handleOverlap (n chunk : Nat) : String :=
+  let chunk := max chunk 1
+  let rec ops (next fuel : Nat) : List (Op Nat) :=
+    match fuel with
+    | 0 => []
+    | fuel + 1 =>
+      if next ≥ n then [Op.take] else
+      let k := min chunk (n - next)
+      Op.append (List.range' next k) :: Op.take :: ops (next + k) fuel
+  let outs := (run ({ nres := 0 } : Pool Nat) (ops 0 (n + 1))).2
+  let slices := outs.filterMap (fun o => match o with | .slice s xs => some (s, xs) | _ => none)
+  let got := slices.flatMap (·.2)
+  let idxErr := (slices.map (fun p => (p.2.zipIdx p.1).countP (fun q => q.1 != q.2))).sum
+  s!"handed={got.length} exact={if got == List.range n then 1 else 0} index_errors={idxErr}"
+
 def answer (case impl : String) : String :=
   let m :=
     match case.splitOn "|" with
     | ["P", n, ops] => handlePool (n.toNat?.getD 0) ops
     | ["L", t, k] => handleLock (t.toNat?.getD 0) (k.toNat?.getD 0)
+    | ["X", n, c] => handleOverlap (n.toNat?.getD 0) (c.toNat?.getD 1)
     | _ => "error:bad-case"
   m ++ "\t" ++ (if m.startsWith "error" then "error" else if impl == m then "ok" else "bad:differs-from-sequential-pool-spec")
 
